@@ -206,7 +206,7 @@ fn i4_body(ws_b: usize, hard: bool, iw: u8, cw: u8) {
     kani::assume(i < total);
     let want = if i < 3 { b"//b"[i] } else if i < 3 + b_text.len() { b_text.as_bytes()[i - 3] } else { e_text.as_bytes()[i - 3 - b_text.len()] };
     assert!(out[i] == want, "verbatim region: byte differs");
-    cover!(b_text.as_bytes()[0] == b'\r' && ws_b == 2 && b_text.as_bytes()[1] == b'\n', "crlf_after_comment");
+    cover!(b_text.as_bytes()[0] == b'\r', "cr_after_comment");
 }
 macro_rules! i4 { ($($name: ident => ($w: expr, $h: expr, $iw: expr, $cw: expr)),*) => {$(
     recon_harness! { fn $name() unwind(8) { i4_body($w, $h, $iw, $cw) } }
